@@ -240,8 +240,13 @@ func (u *Url) SearchParams() *SearchParams {
 	return u.searchParams
 }
 
+// SetSearchParams replaces the search parameters of the URL with a copy of searchParams.
 func (u *Url) SetSearchParams(searchParams *SearchParams) {
-	u.searchParams = searchParams
+	params := searchParams.cloneFor(u).params
+	if u.searchParams == nil {
+		u.searchParams = &SearchParams{url: u}
+	}
+	u.searchParams.params = params
 	u.searchParams.update()
 }
 
